@@ -21,6 +21,7 @@ theorem runGo_append (r : Resp) (a b : List WOp) : runGo r (a ++ b) = runGo (run
     | hdr c => simp only [List.cons_append, runGo]; exact ih _
     | write c e => simp only [List.cons_append, runGo]; exact ih _
     | setCL v => simp only [List.cons_append, runGo]; exact ih _
+    | info => simp only [List.cons_append, runGo]; exact ih _
 
 /-- once the header is committed the Content-Length that went out with it is fixed -/
 theorem runGo_cl_stable (ops : List WOp) (a : Resp) (h : a.commits ≠ 0) : (runGo a ops).cl = a.cl := by
@@ -31,6 +32,7 @@ theorem runGo_cl_stable (ops : List WOp) (a : Resp) (h : a.commits ≠ 0) : (run
     | hdr c => simp only [runGo, h, if_false]; rw [ih _ (by simp)]
     | write c e => simp only [runGo, h, if_false]; rw [ih _ (by simpa using h)]
     | setCL v => simp only [runGo]; rw [ih _ (by simpa using h)]
+    | info => simp only [runGo]; exact ih _ h
 
 /-- commits, status and body do not depend on the Content-Length bookkeeping -/
 theorem runGo_core (ops : List WOp) (a a' : Resp)
@@ -52,6 +54,7 @@ theorem runGo_core (ops : List WOp) (a a' : Resp)
       · have hz' : ¬ a'.commits = 0 := by rw [h1]; exact hz
         simp [hz, hz', h1, h2, h3]
     | setCL v => simp only [runGo]; exact ih _ _ ⟨h1, h2, h3⟩
+    | info => simp only [runGo]; exact ih _ _ ⟨h1, h2, h3⟩
 
 /-- same response up to superfluous header commits -/
 def Rel1 (r r' : Resp) : Prop :=
@@ -82,6 +85,10 @@ theorem normGo_rel (ops : List WOp) (r r' : Resp) (h : Rel1 r r') :
         simp only [hz, ne_eq, not_true_eq_false, decide_false, normGo, runGo]
         have := ih { r with live := v } { r' with live := v } ⟨hb, hs, hc, hcl, rfl⟩
         simpa [hz] using this
+      | info =>
+        simp only [hz, ne_eq, not_true_eq_false, decide_false, normGo, runGo]
+        have := ih r r' ⟨hb, hs, hc, hcl, hl⟩
+        simpa [hz] using this
     · have hz' : r'.commits = 1 := by rw [hc]; omega
       have hd : decide (r.commits ≠ 0) = true := by simp [hz]
       cases op with
@@ -98,6 +105,10 @@ theorem normGo_rel (ops : List WOp) (r r' : Resp) (h : Rel1 r r') :
       | setCL v =>
         simp only [hd, normGo, runGo]
         have := ih { r with live := v } { r' with live := v } ⟨hb, hs, hc, hcl, rfl⟩
+        simpa [hz] using this
+      | info =>
+        simp only [hd, normGo, runGo]
+        have := ih r r' ⟨hb, hs, hc, hcl, hl⟩
         simpa [hz] using this
 
 theorem norm_rel (ops : List WOp) : Rel1 (runOps ops) (runOps (norm ops)) := by
@@ -131,6 +142,10 @@ theorem enc_rel (ops : List WOp) (r r' : Resp) (h : Rel2 r r') :
       simp only [List.map_cons, encOp, runGo]
       apply ih
       exact ⟨hc, hs, hb⟩
+    | info =>
+      simp only [List.map_cons, encOp, runGo]
+      apply ih
+      exact ⟨hc, hs, hb⟩
 
 /-- deleting Content-Length just before the header goes out: same commits, status and body,
 and no Content-Length is committed -/
@@ -144,6 +159,9 @@ theorem delCL_rel (ops : List WOp) (r : Resp) (h0 : r.commits = 0) (hcl : r.cl =
     | setCL v =>
       simp only [delCL, runGo]
       exact ih { r with live := v } h0 hcl
+    | info =>
+      simp only [delCL, runGo]
+      exact ih r h0 hcl
     | hdr c =>
       simp only [delCL, runGo, h0, if_true]
       have hcore := runGo_core ops { r with commits := r.commits + 1, status := c, cl := r.live }
@@ -239,17 +257,75 @@ no Content-Length was committed with it -/
 def Wrote (s : Option Nat) (bb : Bytes) (R : Resp) : Prop :=
   R.commits = 1 ∧ R.status = statusOf s ∧ chunks R = [.inner bb] ∧ R.cl = none
 
+/-- nothing but informational headers -/
+def quiet (ops : List WOp) : Bool := ops.all (· == .info)
+
+@[simp] theorem quiet_nil : quiet [] = true := rfl
+
+theorem quiet_cons_info (ops : List WOp) : quiet (.info :: ops) = quiet ops := by simp [quiet]
+
+theorem quiet_normGo (w : Bool) (ops : List WOp) (h : quiet ops = true) : normGo w ops = ops := by
+  induction ops with
+  | nil => cases w <;> rfl
+  | cons op r ih =>
+    cases op with
+    | info => rw [quiet_cons_info] at h; cases w <;> simp [normGo, ih h]
+    | hdr c => simp [quiet] at h
+    | write c e => simp [quiet] at h
+    | setCL v => simp [quiet] at h
+
+theorem quiet_enc (ops : List WOp) (h : quiet ops = true) : ops.map encOp = ops := by
+  induction ops with
+  | nil => rfl
+  | cons op r ih =>
+    cases op with
+    | info => rw [quiet_cons_info] at h; simp [encOp, ih h]
+    | hdr c => simp [quiet] at h
+    | write c e => simp [quiet] at h
+    | setCL v => simp [quiet] at h
+
+theorem quiet_delCL (ops : List WOp) (h : quiet ops = true) : delCL ops = ops := by
+  induction ops with
+  | nil => rfl
+  | cons op r ih =>
+    cases op with
+    | info => rw [quiet_cons_info] at h; simp [delCL, ih h]
+    | hdr c => simp [quiet] at h
+    | write c e => simp [quiet] at h
+    | setCL v => simp [quiet] at h
+
+theorem runGo_quiet (r : Resp) (ops more : List WOp) (h : quiet ops = true) :
+    runGo r (ops ++ more) = runGo r more := by
+  induction ops with
+  | nil => rfl
+  | cons op rest ih =>
+    cases op with
+    | info => rw [quiet_cons_info] at h; simp only [List.cons_append, runGo]; exact ih h
+    | hdr c => simp [quiet] at h
+    | write c e => simp [quiet] at h
+    | setCL v => simp [quiet] at h
+
+theorem quiet_replicate (n : Nat) : quiet (List.replicate n .info) = true := by
+  simp [quiet]
+
+theorem quiet_append (a b : List WOp) : quiet (a ++ b) = (quiet a && quiet b) := by
+  simp [quiet]
+
+theorem quiet_gz (ops : List WOp) (h : quiet ops = true) : delCL ((norm ops).map encOp) = ops := by
+  unfold norm
+  rw [quiet_normGo false ops h, quiet_enc ops h, quiet_delCL ops h]
+
 /-- `m` is the site's effective `errors` mode, `tpl` whether `templates` renders the request.
-A behaviour is either an unhandled error status (only possible without `errors`; nothing was
-written, no header field was left behind, and the default error response is what the property asks
-for), or finished with the property already true of what was written, or a panic in flight (only
-without `errors`) with either nothing or exactly the inner response written. -/
+A behaviour is either an unhandled error status (only possible without `errors`; nothing but
+informational headers went out, no header field was left behind, and the default error response is
+what the property asks for), or finished with the property already true of what was written, or a
+panic in flight (only without `errors`) with either nothing or exactly the inner response written. -/
 def Inv (tpl : Bool) (m : Option ErrMode) (i : Inner) (b : Beh) : Prop :=
   match b.out with
   | .ret s _ =>
-    if s ≥ 400 then m = none ∧ b.ops = [] ∧ good tpl none i (runOps (errResponse s)) = true
+    if s ≥ 400 then m = none ∧ quiet b.ops = true ∧ good tpl none i (runOps (errResponse s)) = true
     else good tpl m i (runOps b.ops) = true
-  | .panic => m = none ∧ ((b.ops = [] ∧ (i = .panicBefore ∨ ∃ s bb, i = .panicAfter s bb)) ∨
+  | .panic => m = none ∧ ((quiet b.ops = true ∧ (i = .panicBefore ∨ ∃ s bb, i = .panicAfter s bb)) ∨
       ∃ s bb, i = .panicAfter s bb ∧ Wrote s bb (runOps b.ops))
 
 theorem wrote_norm {s : Option Nat} {bb : Bytes} {ops : List WOp} (h : Wrote s bb (runOps ops)) :
@@ -274,7 +350,7 @@ theorem inv_header (tpl : Bool) (m : Option ErrMode) (i : Inner) (b : Beh) (h : 
     by_cases hs : s ≥ 400
     · simp only [hs, if_true] at h ⊢
       obtain ⟨h1, h2, h3⟩ := h
-      exact ⟨h1, by rw [h2]; rfl, h3⟩
+      exact ⟨h1, by unfold norm; rw [quiet_normGo false _ h2]; exact h2, h3⟩
     · simp only [hs, if_false] at h ⊢
       exact good_norm tpl m i _ _ (norm_rel b.ops) h
   | panic =>
@@ -282,7 +358,7 @@ theorem inv_header (tpl : Bool) (m : Option ErrMode) (i : Inner) (b : Beh) (h : 
     obtain ⟨h1, h2⟩ := h
     refine ⟨h1, ?_⟩
     rcases h2 with ⟨h2, h3⟩ | ⟨s, bb, h2, h3⟩
-    · left; exact ⟨by rw [h2]; rfl, h3⟩
+    · left; exact ⟨by unfold norm; rw [quiet_normGo false _ h2]; exact h2, h3⟩
     · right; exact ⟨s, bb, h2, wrote_norm h3⟩
 
 theorem inv_gzip (tpl : Bool) (m : Option ErrMode) (i : Inner) (b : Beh) (h : Inv tpl m i b) :
@@ -297,7 +373,9 @@ theorem inv_gzip (tpl : Bool) (m : Option ErrMode) (i : Inner) (b : Beh) (h : In
       subst h1
       have : ¬ (0 ≥ 400) := by omega
       simp only [this, if_false]
-      rw [h2]
+      rw [quiet_gz _ h2]
+      unfold runOps
+      rw [runGo_quiet _ _ _ h2]
       exact h3
     · simp only [hs, if_false] at h ⊢
       exact good_gz tpl m i _ _ (gz_rel b.ops) h
@@ -306,7 +384,7 @@ theorem inv_gzip (tpl : Bool) (m : Option ErrMode) (i : Inner) (b : Beh) (h : In
     obtain ⟨h1, h2⟩ := h
     refine ⟨h1, ?_⟩
     rcases h2 with ⟨h2, h3⟩ | ⟨s, bb, h2, h3⟩
-    · left; exact ⟨by rw [h2]; rfl, h3⟩
+    · left; exact ⟨by rw [quiet_gz _ h2]; exact h2, h3⟩
     · right; exact ⟨s, bb, h2, wrote_gz h3⟩
 
 theorem inv_log (tpl : Bool) (m : Option ErrMode) (i : Inner) (b : Beh) (h : Inv tpl m i b) :
@@ -323,7 +401,8 @@ theorem inv_log (tpl : Bool) (m : Option ErrMode) (i : Inner) (b : Beh) (h : Inv
       simp only [this, if_false]
       obtain ⟨h1, h2, h3⟩ := h
       subst h1
-      rw [h2]
+      unfold runOps
+      rw [runGo_quiet _ _ _ h2]
       exact h3
     · simp only [hs, if_false]; exact h
   | panic => exact h
@@ -340,7 +419,8 @@ theorem inv_server (tpl : Bool) (m : Option ErrMode) (i : Inner) (b : Beh) (h : 
     · simp only [hs, if_true] at h ⊢
       obtain ⟨h1, h2, h3⟩ := h
       subst h1
-      rw [h2]
+      unfold runOps
+      rw [runGo_quiet _ _ _ h2]
       exact h3
     · simp only [hs, if_false] at h ⊢
       exact h
@@ -349,7 +429,8 @@ theorem inv_server (tpl : Bool) (m : Option ErrMode) (i : Inner) (b : Beh) (h : 
     obtain ⟨h1, h2⟩ := h
     subst h1
     rcases h2 with ⟨h2, h3⟩ | ⟨s, bb, h2, h3⟩
-    · rw [h2]
+    · unfold runOps
+      rw [runGo_quiet _ _ _ h2]
       rcases h3 with h3 | ⟨s, bb, h3⟩
       · subst h3
         simp [good, goodCore, clOK, runOps, runGo, fresh, errResponse, chunks, oneChunk, panicBodyOK]
@@ -427,26 +508,63 @@ theorem inv_stage2 (tplc : Option Bool) (m : Option ErrMode) (i : Inner) (hok : 
   | panicBefore => exact inv_stage2_panicBefore tplc m
   | panicAfter s bb => exact inv_stage2_panicAfter tplc m s bb
 
-/-- the chain of a site is stage2 followed by header, gzip and log as configured -/
-theorem chain_eq (c : Cfg) (r : Req) (i : Inner) :
-    chain c r i =
+/-- informational headers ahead of a behaviour do not disturb the invariant -/
+theorem inv_pre (tpl : Bool) (m : Option ErrMode) (i : Inner) (b : Beh) (n : Nat) (h : Inv tpl m i b) :
+    Inv tpl m i (pre n b) := by
+  unfold Inv pre at *
+  cases hout : b.out with
+  | ret s e =>
+    simp only [hout] at h ⊢
+    by_cases hs : s ≥ 400
+    · simp only [hs, if_true] at h ⊢
+      exact ⟨h.1, by rw [quiet_append, quiet_replicate, h.2.1]; rfl, h.2.2⟩
+    · simp only [hs, if_false] at h ⊢
+      unfold runOps at h ⊢
+      rw [runGo_quiet _ _ _ (quiet_replicate n)]
+      exact h
+  | panic =>
+    simp only [hout] at h ⊢
+    refine ⟨h.1, ?_⟩
+    rcases h.2 with ⟨h2, h3⟩ | ⟨s, bb, h2, h3⟩
+    · left; exact ⟨by rw [quiet_append, quiet_replicate, h2]; rfl, h3⟩
+    · right
+      refine ⟨s, bb, h2, ?_⟩
+      unfold runOps at h3 ⊢
+      rw [runGo_quiet _ _ _ (quiet_replicate n)]
+      exact h3
+
+theorem errorsW_pre (m : ErrMode) (n : Nat) (b : Beh) : errorsW m (pre n b) = pre n (errorsW m b) := by
+  obtain ⟨ops, out⟩ := b
+  unfold errorsW pre
+  cases out with
+  | panic => simp only []; split <;> simp [List.append_assoc]
+  | ret s e =>
+    simp only []
+    split
+    · simp [List.append_assoc]
+    · split <;> simp [List.append_assoc]
+
+/-- the chain of a site is stage2 (with the informational headers ahead) followed by header, gzip
+and log as configured -/
+theorem chain_eq (c : Cfg) (r : Req) (n : Nat) (i : Inner) :
+    chain c r n i =
       (fun b => if c.log then logW b else b)
         ((fun b => if c.gzip && r.html && r.ae then gzipW b else b)
           ((fun b => if c.header then headerW b else b)
-            (stage2 (if c.templates then some r.html else none) (effectiveErrors c) i))) := by
+            (pre n (stage2 (if c.templates then some r.html else none) (effectiveErrors c) i)))) := by
   unfold chain stage2
-  cases c.templates <;> rfl
+  cases c.templates <;> cases effectiveErrors c <;> simp [errorsW_pre]
 
 theorem tplActive_eq (c : Cfg) (r : Req) :
     tplActive (if c.templates then some r.html else none) = (c.templates && r.html) := by
   cases c.templates <;> cases r.html <;> rfl
 
-theorem inv_chain (c : Cfg) (r : Req) (i : Inner) (hok : Inner.ok i = true) :
-    Inv (c.templates && r.html) (effectiveErrors c) i (chain c r i) := by
+theorem inv_chain (c : Cfg) (r : Req) (n : Nat) (i : Inner) (hok : Inner.ok i = true) :
+    Inv (c.templates && r.html) (effectiveErrors c) i (chain c r n i) := by
   rw [chain_eq, ← tplActive_eq]
   simp only []
-  have h2 := inv_stage2 (if c.templates then some r.html else none) (effectiveErrors c) i hok
-  generalize stage2 (if c.templates then some r.html else none) (effectiveErrors c) i = b2 at h2
+  have h2 := inv_pre _ _ _ _ n (inv_stage2 (if c.templates then some r.html else none) (effectiveErrors c) i hok)
+  generalize pre n (stage2 (if c.templates then some r.html else none) (effectiveErrors c) i) = b2 at h2
   generalize tplActive (if c.templates then some r.html else none) = tp at h2 ⊢
   have h3 : Inv tp (effectiveErrors c) i (if c.header then headerW b2 else b2) := by
     split
@@ -473,6 +591,7 @@ theorem leak_nil (enc : Bool) (ops : List WOp) : leak [] enc ops = ops := by
     | hdr c => simp [leak, ih]
     | write c e => simp [leak]
     | setCL v => simp [leak, ih]
+    | info => simp [leak, ih]
 
 theorem templatesSt_clean (html : Bool) (i : Inner) : templatesSt [] html i = templatesW html i := by
   unfold templatesSt
@@ -483,34 +602,102 @@ theorem gzipSt_clean (b : Beh) : gzipSt [] b = gzipW b := by
 
 /-- with the scratch objects cleared when they are taken, the response to a request is the one
 the stateless model computes, whatever state earlier requests left -/
-theorem serveSt_resp (c : Cfg) (r : Req) (i : Inner) (st : ServerState) :
-    (serveSt true c r i st).1 = serve c r i := by
+theorem serveSt_resp (c : Cfg) (r : Req) (n : Nat) (i : Inner) (st : ServerState) :
+    (serveSt true c r n i st).1 = serve c r n i := by
   unfold serveSt serve chain
   simp only [takeClean, if_true, templatesSt_clean, gzipSt_clean]
 
-theorem serveAll_eq (c : Cfg) (st : ServerState) (reqs : List (Req × Inner)) :
-    serveAll c st reqs = reqs.map (fun q => serve c q.1 q.2) := by
+theorem serveAll_eq (c : Cfg) (st : ServerState) (reqs : List (Req × Nat × Inner)) :
+    serveAll c st reqs = reqs.map (fun q => serve c q.1 q.2.1 q.2.2) := by
   induction reqs generalizing st with
   | nil => rfl
   | cons q qs ih =>
-    obtain ⟨r, i⟩ := q
+    obtain ⟨r, n, i⟩ := q
     unfold serveAll
     simp only [List.map_cons]
     rw [ih, serveSt_resp]
 
-theorem putBack_length (used : Bool) (leaves : List Chunk) (pool : List Pooled) :
-    (putBack used leaves pool).length = if used then max 1 pool.length else pool.length := by
+theorem putBack_length (fresh : Nat) (used : Bool) (leaves : List Chunk) (pool : List Pooled) :
+    (putBack fresh used leaves pool).length = if used then max 1 pool.length else pool.length := by
   unfold putBack
   cases used
   · simp
   · cases pool <;> simp [getObj]
 
-theorem putBack_bounds (used : Bool) (leaves : List Chunk) (pool : List Pooled) :
-    pool.length ≤ (putBack used leaves pool).length ∧ (putBack used leaves pool).length ≤ max 1 pool.length := by
+theorem putBack_bounds (fresh : Nat) (used : Bool) (leaves : List Chunk) (pool : List Pooled) :
+    pool.length ≤ (putBack fresh used leaves pool).length ∧
+    (putBack fresh used leaves pool).length ≤ max 1 pool.length := by
   rw [putBack_length]
   cases used <;> simp <;> omega
 
 theorem logAfter_bounds (logged : Bool) (n : Nat) : n ≤ logAfter logged n ∧ logAfter logged n ≤ n + 1 := by
   unfold logAfter; cases logged <;> simp
+
+/-- the identities in a pool after the deferred Put: the same as before, or — the pool was empty —
+the one new object -/
+theorem putBack_ids (fresh : Nat) (used : Bool) (leaves : List Chunk) (pool : List Pooled) :
+    (putBack fresh used leaves pool).map (·.id) =
+      if used && pool.isEmpty then [fresh] else pool.map (·.id) := by
+  unfold putBack
+  cases used
+  · simp
+  · cases pool <;> simp [getObj]
+
+theorem mem_putBack_id {fresh : Nat} {used : Bool} {leaves : List Chunk} {pool : List Pooled} {p : Pooled}
+    (hp : p ∈ putBack fresh used leaves pool) : p.id = fresh ∨ p.id ∈ pool.map (·.id) := by
+  have : p.id ∈ (putBack fresh used leaves pool).map (·.id) := List.mem_map.mpr ⟨p, hp, rfl⟩
+  rw [putBack_ids] at this
+  split at this
+  · left; simpa using this
+  · right; exact this
+
+/-- every object is in a pool at most once (so two requests in flight together are never handed
+the same object by `sync.Pool`), and no identity is invented: preserved by every request. -/
+theorem poolsSound_step (c : Cfg) (r : Req) (n : Nat) (i : Inner) (st : ServerState) (h : poolsSound st) :
+    poolsSound (serveSt true c r n i st).2 := by
+  obtain ⟨hnd, hlt⟩ := h
+  have hlt' : ∀ x, x ∈ st.gzPool.map (·.id) ++ st.tplPool.map (·.id) → x < st.nextId := by
+    intro x hx
+    rcases List.mem_append.mp hx with hx | hx
+    · obtain ⟨p, hp, rfl⟩ := List.mem_map.mp hx
+      exact hlt p (List.mem_append_left _ hp)
+    · obtain ⟨p, hp, rfl⟩ := List.mem_map.mp hx
+      exact hlt p (List.mem_append_right _ hp)
+  simp only [serveSt, poolsSound]
+  generalize (c.gzip && r.html && r.ae && gzUses _) = ug
+  constructor
+  · rw [putBack_ids, putBack_ids]
+    by_cases hg : (ug && st.gzPool.isEmpty) = true <;> by_cases ht : (c.templates && st.tplPool.isEmpty) = true
+    · simp only [hg, ht, if_true]
+      simp
+    · simp only [hg, ht, if_true]
+      have hfresh : st.nextId + 1 ∉ st.tplPool.map (·.id) := by
+        intro hm
+        have := hlt' _ (List.mem_append_right _ hm); omega
+      have hnd2 : (st.tplPool.map (·.id)).Nodup := (List.nodup_append.mp hnd).2.1
+      simp only [Bool.false_eq_true, if_false, List.singleton_append, List.nodup_cons]
+      exact ⟨hfresh, hnd2⟩
+    · simp only [hg, ht, if_true]
+      have hfresh : st.nextId ∉ st.gzPool.map (·.id) := by
+        intro hm
+        have := hlt' _ (List.mem_append_left _ hm); omega
+      have hnd1 : (st.gzPool.map (·.id)).Nodup := (List.nodup_append.mp hnd).1
+      simp only [Bool.false_eq_true, if_false]
+      rw [List.nodup_append]
+      refine ⟨hnd1, by simp, ?_⟩
+      intro a ha b hb
+      simp only [List.mem_singleton] at hb
+      subst hb
+      intro hab; subst hab; exact hfresh ha
+    · simp only [hg, ht]
+      exact hnd
+  · intro p hp
+    rcases List.mem_append.mp hp with hp | hp
+    · rcases mem_putBack_id hp with h | h
+      · omega
+      · have := hlt' _ (List.mem_append_left _ h); omega
+    · rcases mem_putBack_id hp with h | h
+      · omega
+      · have := hlt' _ (List.mem_append_right _ h); omega
 
 end Casket.Mw
